@@ -43,6 +43,8 @@ class Ctx:
         self.mc_runs = []
         self.violations = []          # (what, replay path)
         self.drift = []
+        self.deviations = []          # behaviour beyond the listed properties that differs from its specification: never an alarm
+        self.beyond = []              # what was covered beyond the listed property
         self.assumptions = []
         self.extra = {}
         self.exhaustive = False
@@ -140,7 +142,7 @@ def tlc_stats(out):
     return 0, 0
 
 
-def model_check(ctx, module, cfg, what, workers=4, timeout=900, expect_violation=False, xmx="4g", extra=None):
+def model_check(ctx, module, cfg, what, workers=4, timeout=900, expect_violation=False, xmx="4g", extra=None, beyond=False):
     """Exhaustive TLC run of a bounded model. A violated invariant/assumption is a
     design-level violation of the property (unless expect_violation: an as-coded regression config)."""
     t = time.time()
@@ -158,10 +160,15 @@ def model_check(ctx, module, cfg, what, workers=4, timeout=900, expect_violation
         raise ToolError("TLC did not finish %s/%s (rc=%s)\n%s" % (module, cfg, rc, out[-3000:]))
     ctx.states += dist
     ctx.transitions += gen
+    if beyond:
+        ctx.beyond.append("%s/%s: %s (%d distinct states)" % (module, cfg, what, dist))
     if not finished:
         path = os.path.join(ctx.replays, "mc_%s.txt" % cfg.replace(".cfg", ""))
         open(path, "w").write(out[-20000:])
-        ctx.violation("model %s (%s): %s" % (module, cfg, what), path)
+        if beyond:
+            ctx.deviations.append("model %s (%s): %s" % (module, cfg, what))
+        else:
+            ctx.violation("model %s (%s): %s" % (module, cfg, what), path)
     return out
 
 
@@ -191,7 +198,7 @@ def nlines(path):
         return sum(1 for _ in f)
 
 
-def record_and_validate(ctx, jobs, module, cfg, prop_of=None, par=8):
+def record_and_validate(ctx, jobs, module, cfg, prop_of=None, par=8, beyond=False):
     """jobs: list of (name, recorder-args). Records each trace, validates it with TLC.
     A rejected line becomes a violation with a replay file = the trace prefix up to that line."""
     def one(job):
@@ -230,7 +237,12 @@ def record_and_validate(ctx, jobs, module, cfg, prop_of=None, par=8):
             rp = os.path.join(ctx.replays, name + ".ndjson")
             with open(rp, "w") as f:
                 f.writelines(lines[:line_no])
-            ctx.violation("trace %s rejected at line %d: %s" % (name, line_no, lines[line_no - 1].strip()[:300]), rp)
+            if beyond:
+                ctx.deviations.append("trace %s line %d (replay %s): %s" % (name, line_no, os.path.relpath(rp, VERIF), lines[line_no - 1].strip()[:300]))
+            else:
+                ctx.violation("trace %s rejected at line %d: %s" % (name, line_no, lines[line_no - 1].strip()[:300]), rp)
+    if beyond:
+        ctx.beyond.append("%s: %d traces, %d events validated" % (module, len(results), sum(r[2] - 1 for r in results)))
     return results
 
 
@@ -260,6 +272,7 @@ def finish(ctx, level="model_checking", rule=None):
         "model_check_runs": ctx.mc_runs,
         "exhaustive": ctx.exhaustive,
         "model_drift": ctx.drift,
+        "beyond_listed_property": {"covered": ctx.beyond, "deviations": ctx.deviations},
     }
     cov.update(ctx.extra)
     if rule:
@@ -281,6 +294,8 @@ def finish(ctx, level="model_checking", rule=None):
         json.dump(ev, f, indent=1)
     for d in ctx.drift:
         print("MODEL-DRIFT: property=%s %s" % (ctx.pid, d))
+    for d in ctx.deviations:
+        print("SPEC-DEVIATION (beyond the listed properties, not an alarm): %s" % d)
     for what, replay in real:
         print("VIOLATION property=%s replay=%s" % (ctx.pid, os.path.relpath(replay, VERIF)))
         print("  " + what[:500])
